@@ -4,7 +4,7 @@
 From AV Require Import Base.Util Model.Consumer Proofs.ConsumerBase Proofs.ConsumerFrame Proofs.ConsumerC13
   Proofs.ConsumerStop Proofs.ConsumerStopOk Proofs.ConsumerC13Top Proofs.ConsumerInv Proofs.ConsumerShut Proofs.ConsumerRun
   Proofs.ConsumerFuel Proofs.ConsumerShutFlags Proofs.ConsumerNotStarted Proofs.ConsumerFuelEnoughStop
-  Proofs.ConsumerFuelEnough Proofs.ConsumerFuelEnoughLoop Proofs.ConsumerFuelEnoughRun.
+  Proofs.ConsumerFuelEnough Proofs.ConsumerFuelEnoughLoop Proofs.ConsumerFuelEnoughRun Proofs.ConsumerShutInvNC.
 Open Scope Z_scope.
 
 (* In EVERY state in which stop() can be called (not already inside stop(), not inside the auto-commit timer callback
@@ -134,6 +134,27 @@ Theorem C13_not_started_idle_nested : forall fuel k s r s' o,
   run fuel k s = (r, s', o) -> fuel_ok o = true -> PreN k s -> N s'.
 Proof. exact run_n. Qed.
 Print Assumptions C13_not_started_idle_nested.
+
+(* The commit side: as long as the application does not itself call commit() on the stopped consumer (the code accepts that
+   call and sends the request), a consumer that is not started has no commit waiter, no commit request in flight and no
+   commit-retry timer - after EVERY step of every run, hence also for the rest of the event in which the processor called
+   stop() and for everything after it.  commit_idle_run stops looking at the first manual commit() on a stopped consumer.
+   With C13_not_started_idle (fetch side) this is full quiescence whenever the consumer is not started. *)
+Theorem C13_not_started_commit_idle : forall n0 fuel evs c buf,
+  all_fuel_ok (run_steps fuel (init c n0 buf) evs) = true ->
+  commit_idle_run (run_steps fuel (init c n0 buf) evs) = true.
+Proof. intros. apply commit_idle_run_holds; [reflexivity | assumption]. Qed.
+Print Assumptions C13_not_started_commit_idle.
+(* one event from EVERY state, and every nested execution (incl. what runs after a stop() made inside the processor) *)
+Theorem C13_not_started_commit_idle_step : forall fuel s e s' o,
+  step fuel s e = (s', o) -> fuel_ok o = true -> commit_idle s = true ->
+  (e = ECommit -> s_startd s <> None) -> commit_idle s' = true.
+Proof. exact commit_idle_step. Qed.
+Print Assumptions C13_not_started_commit_idle_step.
+Theorem C13_not_started_commit_idle_nested : forall fuel k s r s' o,
+  run fuel k s = (r, s', o) -> fuel_ok o = true -> NC s -> NC s'.
+Proof. exact run_q. Qed.
+Print Assumptions C13_not_started_commit_idle_nested.
 
 (* C13_quiescent_after_stop over all runs: EVERY stop() of a running consumer, in every run, returns (never raises) and
    leaves the consumer quiescent, having sent / scheduled / delivered nothing; the retry limit is the configured one *)
